@@ -188,13 +188,18 @@ fn run_seq(script: &[Op]) -> (String, String, String) {
                 toks.push(format!("T@{}={}", t, show(r)));
             }
             Op::RecvTimeout(d) => {
+                // u64::MAX = Duration::MAX ("wait as long as needed"): only when something will become deliverable
+                let forever = *d == u64::MAX;
+                if forever && !rq.has_near_future(run.cur.max(run.quarter_now())) {
+                    continue
+                }
                 let t = run.slot(3);
-                let r = q.receive_timeout(Duration::from_micros(d * QUARTER_US));
+                let r = q.receive_timeout(if forever { Duration::MAX } else { Duration::from_micros(d * QUARTER_US) });
                 let tret = run.quarter_now();
                 if !rq.timers.is_empty() && (!rq.plain.is_empty() || !rq.prio.is_empty()) {
                     tags.insert("timer+queued");
                 }
-                let (e, et) = rq.pick_blocking(t, Some(*d)).unwrap();
+                let (e, et) = rq.pick_blocking(t, if forever { None } else { Some(*d) }).unwrap();
                 if e != r && fail.is_none() {
                     fail = Some(format!("R{}@{} got {} expected {}", d, t, show(r), show(e)));
                 }
@@ -311,7 +316,7 @@ fn gen_script(rng: &mut Rng) -> Vec<Op> {
                 }
             }
             11..=14 => Op::Try,
-            15..=16 => Op::RecvTimeout(*rng.pick(&[0u64, 4, 8])),
+            15..=16 => Op::RecvTimeout(*rng.pick(&[0u64, 4, 8, u64::MAX])),
             17 => Op::Recv,
             _ => Op::Gap(rng.range(1, 3)),
         };
